@@ -103,7 +103,11 @@ def run_batch(ctx, cases, rng):
 
 def shrink(ctx, bt, rng):
     cur = bt
+    import time
+    deadline = time.time() + 20          # shrinking runs the real tools: bounded, the unshrunk case is a replay too
     for _ in range(40):
+        if time.time() > deadline:
+            break
         b, t = cur
         cands = []
         for x in gen.shrink_tree(b)[:60]:
